@@ -625,7 +625,7 @@ fn value_conversions(cx: &mut Ctx) {
         ("decimal-int", "letvalue=value_text.parse::<BigInt>().unwrap();", "decimal integers: value_text.parse::<BigInt>()"),
         ("float", "letvalue=f64::from_str(&value_text).map_err(", "floats: f64::from_str(&value_text)"),
         ("imag-int", "letimag=f64::from_str(&value_text).unwrap();", "imaginary integer literals: f64::from_str(&value_text)"),
-        ("complex-value", "Tok::Complex{real:0.0,imag:value,}", "the float path's imaginary literal carries the parsed value with real 0.0"),
+        ("complex-value", "Tok::Complex{imag:value,real:0.0,}", "the float path's imaginary literal carries the parsed value with real 0.0"),
     ];
     // radix_run pushes every digit it takes: through take_number (`Some(c) => push(c)`) or with the digit test in place
     let via_helper = t.contains("matchself.take_number(radix){Some(c)=>{value_text.push(c);},");
@@ -686,7 +686,7 @@ fn lex_string_order(cx: &mut Ctx) {
     } else {
         cx.fail(rule, &format!("{}/content", rule), &lx.loc(f), "content characters are not pushed exactly once each");
     }
-    if t.contains("lettok=Tok::String{value:string_content,kind,triple_quoted,};") {
+    if t.contains("lettok=Tok::String{kind,triple_quoted,value:string_content,};") {
         cx.ok(rule, "the token carries the content, the kind and the triple-quote flag");
     } else {
         cx.fail(rule, &format!("{}/token", rule), &lx.loc(f), "Tok::String is not built from (string_content, kind, triple_quoted)");
